@@ -123,8 +123,9 @@ def run(ctx):
     k = 2 if ctx.tier == "quick" else 5
     items = []
     fam = {}
-    for _ in range(n):
-        c = gencalls.gen_call(ctx.rng)
+    extra = ["update_at"] * (n // 4) + ["get_at"] * (n // 10)       # the families whose lowering has the most intermediate layout decisions
+    for k_ in range(n + len(extra)):
+        c = gencalls.gen_call(ctx.rng) if k_ < n else gencalls.gen_call(ctx.rng, extra[k_ - n])
         vs = [v for v in [scaled(c, ctx.rng) for _ in range(k)] + [reordered(c, ctx.rng)] if v is not None]
         items.append((c, vs))
         fam[c.family] = fam.get(c.family, 0) + 1
